@@ -64,3 +64,31 @@ prop('C16', 'p32', 'exploration',
      T(4, 1000, 16, 15000),
      'property-based testing against a model + read-only guarded memory for the no-copy path',
      'generated-input search with an independent model as oracle; stray writes become faults', 'trusted: interval-set model; mprotect semantics', COMMON_ASSUME)
+
+SER_ASSUME = COMMON_ASSUME + ['the independent portable/frozen codecs (harness/spec) are a correct reading of the format texts; they reproduce the Java/C golden files byte for byte (anchor tests run before every check)']
+
+prop('C05', 'pser', 'fault_enumeration',
+     'rapid draws history-dependent bitmaps (spec x form, then 0-6 mutations / algebra steps; 0..300 chunks) x entry point {ReadFrom with a generated reader chunking incl. 1 byte at a time, FromBuffer, FromUnsafeBytes, UnmarshalBinary, FromBase64} x receiver {fresh, reused built, reused zero-copy, copy-on-write on} x trailing garbage; '
+     'checks writer agreement, byte accounting, exact consumption, Equals, post-decode operation history vs model; then ENUMERATES writer failure offsets (every offset when the stream is <=4096 bytes, else section boundaries +-1 and 128 random) in two failure modes. '
+     'Non-trivial = >=1 chunk and (reused receiver or a non-trivial reader chunking); distinct = FNV-64 of (history, entry, chunking, receiver). The regression test adds the empty bitmap and 65536 chunks.',
+     T(4, 600, 16, 8000),
+     'property-based round-trip testing + exhaustive writer-fault enumeration per generated stream',
+     'generated round trips with exact byte accounting; writer failure offsets enumerated exhaustively for streams <=4096 bytes',
+     'trusted: interval-set model; independent decoder for section boundaries', SER_ASSUME, run='^TestC05')
+
+prop('C06', 'pser', 'exploration',
+     'two rapid properties. Write: library bytes of history-dependent bitmaps are parsed by a strict independent decoder (cookie, count, run flags + padding bits, ascending keys, card-1, offsets == payload positions, payload kind by cardinality, sorted arrays, bitmap popcount, runs sorted/non-overlapping/in range) and must yield the model. '
+     'Read: the independent encoder emits every legal choice (cookie 12347 with or without run chunks, run kind for any chunk whether or not it is smaller, <4 / >=4 chunks, runs split into adjacent pieces in a separately counted class with restricted assertions) and ReadFrom/FromBuffer/FromUnsafeBytes/UnmarshalBinary must read the encoded set. '
+     'Non-trivial = stream with >=1 run chunk or >=4 chunks; distinct = FNV-64 of the case. Golden Java/C files are a literal regression case.',
+     T(4, 1000, 16, 12000),
+     'differential testing against an independent implementation of the format specification (both directions)',
+     'generated-input search; the oracle is an independent codec written from the spec and anchored on golden files',
+     'trusted: my reading of RoaringFormatSpec, anchored byte-for-byte on testdata/*.bin and testfrozendata/*', SER_ASSUME)
+
+prop('C13', 'pser', 'exploration',
+     'rapid draws history-dependent bitmaps; Freeze / FreezeTo (exact size, size+extra with sentinels, four too-small sizes) / WriteFrozenTo must agree byte for byte with GetFrozenSizeInBytes; the bytes are parsed by an independent strict decoder of the CRoaring frozen layout (arena order, tables, typecodes, count semantics per kind, cookie+count header); '
+     'FrozenView/MustFrozenView over the bytes in a PROT_READ guarded mapping must be Equal, validate, survive a generated write history (copying) with a forced GC, leave the bytes intact, and re-freeze identically. Non-trivial = >=2 chunk kinds present; distinct = FNV-64 of the history. Regression: empty bitmap and 65536 chunks.',
+     T(4, 600, 16, 8000),
+     'property-based round-trip + differential testing against an independent frozen-layout decoder; guarded read-only memory',
+     'generated-input search with independent decoder and memory-protection instruments',
+     'trusted: my reading of the CRoaring frozen layout comment, anchored on testfrozendata/*', SER_ASSUME)
